@@ -146,6 +146,9 @@ class WirePropagateManager(WireManagerBase):
         """Checks each wire whether their coincidents (wires from other blocks)
         have grading defined already; if so, copy it and return True.
         Returns False otherwise"""
+        # edges might have been replaced (curved) since the wires were created
+        self.update()
+
         self.copy_neighbours()
         self.propagate_grading()
 
